@@ -392,11 +392,16 @@ class Rig:
                 self.witness(key, f'report handed to a subscription that must not get it ({reason or "action not in filter"})',
                              sub=k, action=ev['action'], sub_info=self.sub_info(k))
                 if reason == 'failure_limit':
-                    # follow the library after the witness (one witness per cause, no cascade): it evidently did not count the failures
+                    # follow the library after the witness (one witness per cause, no cascade): it evidently did not count every
+                    # failure; its counter = the failures of the current streak that its SOAP client reported, since the last one
+                    # the client took for a success
                     s = model.subs[k]
-                    s.failures, s.failed_at, s.fail_kinds = 0, None, []
-                    sub['streak'] = []
                     self.book(k, recs[0], ev['t'])
+                    counted = []
+                    for kind, outcome in sub['streak']:
+                        counted = [] if outcome == 'ok' else counted + [kind]
+                    s.failures, s.fail_kinds = len(counted), counted
+                    s.failed_at = ev['t'] if s.failures >= model.limit else None
 
     def book(self, k, rec, t):
         """outcome of the delivery as seen at the subscriber's endpoint drives the model's failure counter."""
